@@ -49,6 +49,10 @@ def r1(ctx, prog, cfgname):
     for c in k.calls("mi_free_block_delayed_mt"):
         w = rl.precedes(k, rl.call_to("mi_check_padding")(k), c)
         ctx.check(R, w is None, k.where(c), "[%s] the remote path checks the padding before publishing the block" % cfgname, key="C17.R1:remote", witness=w)
+    for c in k.calls("_mi_padding_shrink"):
+        w = rl.precedes(k, rl.call_to("mi_check_padding")(k), c)
+        ctx.check(R, w is None, k.where(c), "[%s] the padding is verified before _mi_padding_shrink rewrites its delta (a shrink first would hide an overflow into the first word)" % cfgname,
+                  key="C17.R1:remote:shrink", witness=w)
     v = prog.fn("mi_check_padding")
     efault = prog.const("EFAULT")
     ok = any(rl.is_call(v, c, "_mi_error_message") and v.cv(v.nodes[c]["args"][0]) == efault for c in v.calls("_mi_error_message")) and any(True for _ in v.calls("mi_verify_padding"))
@@ -246,5 +250,5 @@ def run(ctx):
             i["site"] += " [%s]" % c
             if not i["ok"]:
                 i["key"] += ":" + c
-    for r, fl in (("C17.R1", 20), ("C17.R2", 6), ("C17.R3", 4), ("C17.R4", 6), ("C17.R5", 12), ("C17.R6", 8)):
+    for r, fl in (("C17.R1", 22), ("C17.R2", 6), ("C17.R3", 4), ("C17.R4", 6), ("C17.R5", 12), ("C17.R6", 8)):
         ctx.floor(r, fl)
